@@ -298,6 +298,7 @@ type vxC14Prep struct {
 	fail                   bool
 	marker                 string
 	closed                 bool // the node dropped the connection instead of answering (transport-level failure)
+	orphan                 bool // the client had closed the connection before the node read this request (a pool closed under a PREPARE that was on its way): the answer reaches nobody
 }
 
 type vxC14Exec struct {
@@ -397,7 +398,7 @@ func (w *vxC14World) onPrepare(ni int, rc *vnode.ReqCtx) {
 	if nth < len(c.Nodes[ni].Prepare) {
 		outcome = c.Nodes[ni].Prepare[nth]
 	}
-	ev := &vxC14Prep{node: ni, stmt: stmt, round: w.round, nth: nth, ks: ks}
+	ev := &vxC14Prep{node: ni, stmt: stmt, round: w.round, nth: nth, ks: ks, orphan: rc.Conn.Client.Closed()}
 	w.preps = append(w.preps, ev)
 	var resp *cqlspec.Response
 	if outcome == "close" && c.Keyspaces == 1 {
@@ -1351,8 +1352,8 @@ func vxC14Run(c *vxC14Case, k *vstats.Case) error {
 	maxRep := 0
 	for _, p := range w.preps {
 		if p.fail && !p.closed {
-			if reported[p.marker] == 0 && w.closeRounds[p.round] {
-				continue // the refusal may have been lost with a connection dropped in the same round
+			if reported[p.marker] == 0 && (w.closeRounds[p.round] || p.orphan) {
+				continue // the refusal may have been lost with a connection dropped in the same round (or before the node read the request)
 			}
 			if reported[p.marker] == 0 && c.gaveUp(p.round, p.stmt) {
 				continue // the only caller that waited for it may have given up before the answer
